@@ -11,7 +11,7 @@ var searchKeyPool = []string{"class", "n", "FileName", "Timestamp"}
 // already normalised.
 func GenSpec(t *rapid.T, defects []Defect) Spec {
 	var s Spec
-	s.Defect = rapid.SampledFrom(defects).Draw(t, "defect")
+	s.Defect = drawDefect(t, defects)
 	ops := make([]Op, 0, NumOps)
 	for op := Op(0); op < NumOps; op++ {
 		if Applicable(op, s.Defect) {
@@ -60,7 +60,44 @@ func GenSpec(t *rapid.T, defects []Defect) Spec {
 		s.PutAttr = rapid.SampledFrom([]string{"", "x", "secret"}).Draw(t, "putAttr")
 		s.PutTombstone = rapid.IntRange(0, 4).Draw(t, "putTombstone") == 0
 	}
+	// Focus on the rare interesting corner: Others reading from the container
+	// with the stored eACL through the server whose ACL checker cannot see
+	// object headers at request time (header-time eACL evaluation).
+	if (s.Defect == DefNone || s.Defect == DefEACLHeader) && (s.Op == OpGet || s.Op == OpHead) &&
+		rapid.IntRange(0, 3).Draw(t, "focusHeaderTime") == 0 {
+		s.Cnr, s.Requester, s.Late, s.Session, s.Bearer = CnrEACL, IDOther, true, SessionNone, false
+		if s.Scheme == SchemeN3 {
+			s.Scheme = SchemeSHA512
+		}
+	}
 	return Normalize(s)
+}
+
+// drawDefect picks a defect class: first a group (authenticity, session,
+// bearer, access), then a member, so that small groups are not starved.
+func drawDefect(t *rapid.T, defects []Defect) Defect {
+	if len(defects) == 1 {
+		return defects[0]
+	}
+	var groups [][]Defect
+	add := func(f func(Defect) bool) {
+		var g []Defect
+		for _, d := range defects {
+			if f(d) {
+				g = append(g, d)
+			}
+		}
+		if len(g) > 0 {
+			groups = append(groups, g)
+		}
+	}
+	add(Defect.IsSignature)
+	add(Defect.IsSession)
+	add(Defect.IsBearer)
+	add(Defect.IsACL)
+	add(func(d Defect) bool { return d == DefNone })
+	g := groups[rapid.IntRange(0, len(groups)-1).Draw(t, "defectGroup")]
+	return g[rapid.IntRange(0, len(g)-1).Draw(t, "defect")]
 }
 
 // AllDefects returns every defect class except DefNone.
